@@ -17,9 +17,8 @@ META = dict(technique='Coq proof (Step/Terminated/SetEvaluationLimits state mach
             level_note='Trusted: Coq kernel+VM; harness (generators, instrumentation of /repo from outside, printers, oracles). User cost/constraints/penalty, DE trial vectors, Nelder-Mead candidate points, argsort permutation and post-decoration populations are oracle inputs (recorded in the correspondence, universally quantified in theorems). Powell: line-search probes and the returned index are oracle inputs. Not in the machine model (oracle only): ensembles, tight/clip range modes. No NaN energies.',
             design_ref="5/C05")
 
-generate = SC.make_generate(**dict(nops=(4, 12), p_mid=0.8))
-run_impl = SC.run_impl
-oracle = SC.oracle_c05
+_generate = SC.make_generate(**dict(nops=(4, 12), p_mid=0.8))
+generate, run_impl, oracle = SC.with_extras(_generate, SC.run_impl, SC.oracle_c05, {"wrapper": (0.1, SC.gen_wrapper, SC.run_wrapper, SC.oracle_wrapper)})
 coq_preamble = SC.coq_preamble
 coq_terms = SC.make_coq_terms('(mk_mask false false true false false true false false)')
 coq_debug = SC.coq_debug
